@@ -84,10 +84,34 @@ def insert_at(S, path, name, val):
     return [insert_at(v, path[1:], name, val) if i == k else v for i, v in enumerate(S)]
 
 
+_DERIVED = []
+
+
 def _cls():
+    """the four stock classes -- after, once per process, dialects were DERIVED from each of them in which the other
+    drafts' keywords do mean something (extend() with the functions the other drafts use, and a sibling from create()
+    on the same metaschema): the stock classes go on ignoring what their draft does not define"""
     global _CLS
     if _CLS is None:
         _CLS = draft_classes()
+        js = __import__("jsonschema")
+        for d, cls in sorted(_CLS.items()):
+            foreign = {}
+            for d2, other in sorted(_CLS.items()):
+                for k, fn in other.VALIDATORS.items():
+                    if k not in cls.VALIDATORS:
+                        foreign.setdefault(k, fn)
+            if foreign:
+                ext = js.validators.extend(cls, validators=foreign)
+                both = dict(cls.VALIDATORS)
+                both.update(foreign)
+                sib = js.validators.create(meta_schema=cls.META_SCHEMA, validators=both, type_checker=cls.TYPE_CHECKER, id_of=cls.ID_OF)
+                for c in (ext, sib):
+                    try:    # the derived dialects are used once, so that whatever they set up lazily exists
+                        list(c({"const": 1, "contains": {}, "if": {}, "divisibleBy": 2, "propertyNames": {}}).iter_errors([3]))
+                    except Exception:  # noqa -- their behaviour is not under test here
+                        pass
+                _DERIVED.extend([ext, sib])
     return _CLS
 
 
